@@ -377,7 +377,7 @@ class ScheduleSpace(_Base):
         self.size = len(opnames)
         self.grain = 1
         self.weight = 50.0
-        self.cap = 4000 if tier == "quick" else 60000
+        self.cap = 4000 if tier == "quick" else 10000
 
     def describe(self, rank):
         return {"op": self.opnames[rank], "chunks": ((3,), (2, 2)), "deviation_bound": self.bound}
